@@ -92,3 +92,13 @@ Theorem c16_fin_after_data : forall l, let s := snd_run l in
   (finNo s = N.of_nat (length (datas s)) + 1 /\ (forall f, In f (datas s) -> 1 <= f < finNo s) /\ frameNo s = finNo s + 1)%N.
 Proof. exact fin_after_data. Qed.
 Print Assumptions c16_fin_after_data.
+
+(* the tube state graph used by the trace checker (Corr/CorrC16.v) is exactly the reachable-edge
+   relation of the model: every run moves tubeState along a path of [tedge] (any state, any actors),
+   and every edge of [tedge] is taken by a single transition from a reachable state *)
+From Hop Require Import ShutdownEdges.
+Theorem c16_state_graph_exact :
+  (forall x l x', run x l = Some x' -> treach 4 (ts (shd x)) (ts (shd x')) = true) /\
+  (forall a b, tedge a b = true -> realised a b).
+Proof. split; [exact run_edges|exact edges_realised]. Qed.
+Print Assumptions c16_state_graph_exact.
